@@ -364,26 +364,40 @@ Definition generate (p : pkg) (T : string) (fl : flags) : option gen :=
 (* --------------------------------- the meaning of the generated file ------ *)
 (* `ce` = the constants as the compiler sees them in the current source.     *)
 
+(* {{strof .}} *)
+Definition strof (g : gen) (n : string) : string :=
+  match assoc_s n (g_strof g) with Some s => s | None => "" end.
+
+Definition t_strings (g : gen) : list string := map (strof g) (g_names g).
+
+(* -bit: Has / Add / Remove.  Go's & | &^ on a fixed-width integer coincide
+   with Z.land/Z.lor/Z.ldiff on its (two's complement) value and stay in range
+   (EnumBits.land_in_range etc.) *)
+Definition has (x f : Z) : bool := Z.land x f =? f.
+Definition add (x f : Z) : Z := Z.lor x f.
+Definition remove (x f : Z) : Z := Z.ldiff x f.
+
+Inductive errk := ENotString | ENotFound | EBadType.
+
+(* what database/sql may hand to Scan *)
+Inductive sqlv := SNil | SBytes (s : string) | SStr (s : string) | SInt (z : Z) | SBool (b : bool)
+                | SFloat (z : Z).
+
+(* -gorm *)
+Definition gorm_data_type : string := "string".
+Definition gorm_db_data_type (g : gen) : string := "ENUM(" ++ g_enums g ++ ")".
+
 Section Generated.
   Variable ce : cenv_t.
   Variable g : gen.
 
-  Definition strof (n : string) : string :=
-    match assoc_s n (g_strof g) with Some s => s | None => "" end.
-
   Definition t_values : list Z := map (const_val ce) (g_names g).
-  Definition t_strings : list string := map strof (g_names g).
   Definition t_string_map : list (Z * string) :=
-    map (fun n => (const_val ce n, strof n)) (g_names g).
+    map (fun n => (const_val ce n, strof g n)) (g_names g).
   Definition t_value_map : list (string * Z) :=
-    map (fun n => (strof n, const_val ce n)) (g_names g).
+    map (fun n => (strof g n, const_val ce n)) (g_names g).
   (* const _t_max = A | B | C *)
   Definition t_max : Z := fold_left Z.lor t_values 0.
-
-  (* -bit *)
-  Definition has (x f : Z) : bool := Z.land x f =? f.
-  Definition add (x f : Z) : Z := Z.lor x f.
-  Definition remove (x f : Z) : Z := Z.ldiff x f.
 
   (* _t_map[v] (through the observation shim: _t_string_map[v]); a Go map
      miss yields "" *)
@@ -417,8 +431,6 @@ Section Generated.
     match assoc_z x t_string_map with Some _ => true | None => false end.
 
   (* ---- enumer.go ---- *)
-  Inductive errk := ENotString | ENotFound | EBadType.
-
   (* ParseEnum returns (t, err); t is the zero value on a miss *)
   Definition parse_enum (s : string) : Z * option errk :=
     match assoc_s s t_value_map with
@@ -460,9 +472,6 @@ Section Generated.
     | (_, Some e) => (Some e, tgt)
     end.
 
-  (* what database/sql may hand to Scan *)
-  Inductive sqlv := SNil | SBytes (s : string) | SStr (s : string) | SInt (z : Z) | SBool (b : bool)
-                  | SFloat (z : Z).
   Definition sql_value (x : Z) : sqlv := SStr (str_of x).       (* Value() *)
   Definition scan (v : sqlv) (tgt : Z) : option errk * Z :=
     match v with
@@ -474,10 +483,6 @@ Section Generated.
     | _ => (Some EBadType, tgt)
     end.
 
-  (* -gorm *)
-  Definition gorm_data_type : string := "string".
-  Definition gorm_db_data_type : string := "ENUM(" ++ g_enums g ++ ")".
-
   (* ---- does the generated file (still) compile against `ce`? ---- *)
   (* `_ = x[Name - lit]` with `var x [1]struct{}`: the constant index must be 0
      (non-zero in-range index: "out of bounds"; not representable: "overflows") *)
@@ -487,7 +492,7 @@ Section Generated.
                        | None => false                 (* undefined: Name *)
                        end) (g_guard g).
   (* map literals with constant keys: duplicate keys are compile errors *)
-  Definition keys_ok : bool := nodup_z t_values && nodup_s t_strings.
+  Definition keys_ok : bool := nodup_z t_values && nodup_s (t_strings g).
 
   (* bit_map_bug: K_bit_map is present (the template references _t_map) *)
   Definition compiles (bit_map_bug : bool) : bool :=
@@ -536,3 +541,17 @@ Definition no_foreign (p : pkg) : bool :=
 (* no spec without a type whose expression is typed (`AB = A | B`): K_enum_implicit_type *)
 Definition no_implicit (p : pkg) : bool :=
   forallb (fun e => negb (ce_implicit e)) (const_env p).
+
+(* ------------------------------------------------ -bit grammar (C14) ------- *)
+
+(* a single-bit flag: 2^i *)
+Definition is_single (f : Z) : bool := (0 <? f) && (f =? 2 ^ Z.log2 f).
+
+Definition bits_upto (v : Z) : list Z := map Z.of_nat (seq 0 (Z.to_nat (Z.log2 v + 1))).
+
+(* every declared value is non-negative and each of its bits is itself a
+   declared (single-bit) flag: single bits, an optional zero, composites of
+   declared bits *)
+Definition bits_declared_b (vals : list Z) : bool :=
+  forallb (fun v => (0 <=? v) &&
+                    forallb (fun i => negb (Z.testbit v i) || mem_z (2 ^ i) vals) (bits_upto v)) vals.
